@@ -68,3 +68,66 @@ for t in "sdcz":
     s = add_before(s, r"^\s*%sQuerySpace\(L, U, mem_usage\);" % t, H("Cleanup"))
     open(f, "w").write(s)
     print("hooked:", f)
+
+
+def add_after_skip(s, pattern, line, skip, count=1):
+    """like add_after, but the line goes `skip` lines further down (past the closing brace of a braced loop body); the
+    skipped lines must consist of closing braces only"""
+    lines = s.split("\n"); out = []; n = 0; pending = []
+    for ln in lines:
+        out.append(ln)
+        pending = [(k - 1, l2, ind) for (k, l2, ind) in pending]
+        for k, l2, ind in list(pending):
+            if k == 0:
+                out.append(ind + l2)
+            elif ln.strip() != "}":
+                raise SystemExit("expected a closing brace after %r, found %r" % (pattern, ln))
+        pending = [(k, l2, ind) for (k, l2, ind) in pending if k > 0]
+        if re.search(pattern, ln):
+            n += 1
+            ind = re.match(r"[ \t]*", ln).group(0)
+            if skip == 0:
+                out.append(ind + line)
+            else:
+                pending.append((skip, line, ind[:-4] if len(ind) >= 4 else ind))
+    if n != count:
+        raise SystemExit("pattern %r matched %d times (expected %d)" % (pattern, n, count))
+    return "\n".join(out)
+
+
+# ---- the incomplete-factorization driver
+for t in "sdcz":
+    f = os.path.join(SRC, t + "gsisx.c")
+    s = open(f).read()
+    if "P:Phase" in s:
+        print("already hooked:", f); continue
+    cplx = t in "cz"
+    s = add_after(s, r'input_error\("%sgsisx", &ii?\);' % t, H("Rejected"))
+    s = add_after(s, r"^\tGlu->expanders = NULL;", H("Query"))
+    s = add_before(s, r"if \( notran \) \{ /\* Reverse the transpose argument\. \*/", H("Convert"))
+    # first utime[EQUIL]: end of the MC64 block (mc64 is cleared when the matching failed); second: ordinary equilibration
+    parts = s.split("utime[EQUIL] = SuperLU_timer_() - t0;")
+    if len(parts) != 3:
+        raise SystemExit("%s: utime[EQUIL] occurs %d times" % (f, len(parts) - 1))
+    s = (parts[0] + "utime[EQUIL] = SuperLU_timer_() - t0;\n\t    if ( mc64 ) { " + H("RowPerm") + " if ( equil ) " + H("Equil") + " }"
+         + parts[1] + "utime[EQUIL] = SuperLU_timer_() - t0;\n\t    " + H("Equil") + parts[2])
+    s = add_after(s, r"^\s*get_perm_c\(permc_spec, AA, perm_c\);", "if ( permc_spec != MY_PERMC && options->Fact == DOFACT ) " + H("Order"))
+    s = add_after(s, r"utime\[ETREE\] = SuperLU_timer_\(\) - t0;", H("Preorder"))
+    s = add_after(s, r"utime\[FACT\] = SuperLU_timer_\(\) - t0;", H("Factor"))
+    s = add_after(s, r"for \(i = 0; i < nnz; \+\+i\) rowind\[i\] = iperm\[rowind\[i\]\];", H("RestoreRows"))
+    s = add_after(s, r"if \( \*info > n \) \{ /\* Out of memory", H("NoMem"))
+    s = add_after(s, r"\*recip_pivot_growth = %sPivotGrowth\(" % t, H("Growth"))
+    s = add_after(s, r"utime\[RCOND\] = SuperLU_timer_\(\) - t0;", H("Cond"))
+    mult = r"(?:cs|zd)_mult\(&%smat\[i\+j\*ld%s\], &%smat\[i\+j\*ld%s\], %s\[i\]\);" if cplx else None
+    def pat(M, ld, V):
+        return (mult % (M, ld, M, ld, V)) if cplx else r"%smat\[i \+ j\*ld%s\] \*= %s\[i\];" % (M, ld, V)
+    s = add_after_skip(s, pat("B", "b", "R"), H("ScaleB"), 0)
+    s = add_after_skip(s, pat("B", "b", "C"), H("ScaleB"), 1)
+    s = add_after_skip(s, pat("X", "x", "C"), H("UnscaleX"), 1)
+    s = add_after_skip(s, pat("X", "x", "R"), H("UnscaleX"), 1)
+    s = add_after(s, r"Xmat\[i \+ j\*ldx\] = Bmat\[i \+ j\*ldb\];", H("CopyBX"))
+    s = add_after(s, r"utime\[SOLVE\] = SuperLU_timer_\(\) - t0;", H("Solve"))
+    s = add_after(s, r'^\s*if \( \*rcond < [sd]mach\("E"\) && \*info == 0\) \*info = A->ncol \+ 1;', "if ( *info == A->ncol + 1 ) " + H("Warn"))
+    s = add_before(s, r"^\s*ilu_%sQuerySpace\(L, U, mem_usage\);" % t, H("Cleanup"))
+    open(f, "w").write(s)
+    print("hooked:", f)
